@@ -88,12 +88,15 @@ func (w *World) entryClosure(name, sym string) {
 	case strings.HasPrefix(name, "E_"):
 		t := fmt.Sprintf("(select (select %s r!c) j!c)", sym)
 		if bs := bound(t, vs); len(bs) > 0 {
-			w.addFact(fmt.Sprintf("(forall ((r!c Int) (j!c %s)) (! (and %s) :pattern (%s)))", w.idxSortName(), strings.Join(bs, " "), t))
+			// only for objects that exist at entry: what a callee later allocates at a fresh address is
+			// described by that callee's postcondition, not by the entry state (an unrestricted closure
+			// contradicts `ensures fresh(result.f)` of an allocating callee with `assigns nothing`)
+			w.addFact(fmt.Sprintf("(forall ((r!c Int) (j!c %s)) (! (=> (<= r!c %s) (and %s)) :pattern (%s)))", w.idxSortName(), a0, strings.Join(bs, " "), t))
 		}
 	case strings.HasPrefix(name, "H_"), strings.HasPrefix(name, "C_"):
 		t := fmt.Sprintf("(select %s r!c)", sym)
 		if bs := bound(t, vs); len(bs) > 0 {
-			w.addFact(fmt.Sprintf("(forall ((r!c Int)) (! (and %s) :pattern (%s)))", strings.Join(bs, " "), t))
+			w.addFact(fmt.Sprintf("(forall ((r!c Int)) (! (=> (<= r!c %s) (and %s)) :pattern (%s)))", a0, strings.Join(bs, " "), t))
 		}
 	case strings.HasPrefix(name, "G_"):
 		if bs := bound(sym, vs); len(bs) > 0 {
